@@ -52,6 +52,7 @@ def drive_and_validate(run, cases, shards):
 
 def check(tier):
     run = Run("C04", tier)
+    run.skip_key = ['os', 'ps', 'ext', 'extout', 'pos', 'ser', 'ty']
     seen, cases = set(), []
     for sl in SLICES[tier]:
         res = core.tlc("mc/MC_C04.tla", mc_cfg(run, sl), workers=8 if tier == "quick" else 16, coverage=True, timeout=3000, xmx="16g")
